@@ -13,150 +13,85 @@ def keepB (min max : F64) (mode : Nat) (c : Item) : Bool :=
 /-- inside the closed interval (the loop's continuation test) -/
 def inC (min max : F64) (c : Item) : Bool := F64.le min c.1 && F64.ge max c.1
 
-/-- what is left of the LIMIT budget after `i` visited nodes -/
-def takeLim (limit : Int) (i : Nat) (l : List Item) : List Item :=
-  if limit < 0 then l else l.take (limit - i).toNat
+/-- LIMIT count: a positive `limit` stops the collection at `limit` items (of which `n` are already
+    collected); zero is handled by the caller; negative = no limit -/
+def lim (limit : Int) (n : Nat) (l : List Item) : List Item :=
+  if limit > 0 then l.take (limit.toNat - n) else l
 
-theorem takeLim_cons (limit : Int) (i : Nat) (c : Item) (l : List Item)
-    (h : (i : Int) < limit ∨ limit < 0) :
-    takeLim limit i (c :: l) = c :: takeLim limit (i + 1) l := by
-  unfold takeLim
-  by_cases hl : limit < 0
-  · simp [hl]
-  · simp only [hl, if_false]
-    have : (limit - (i : Int)).toNat = (limit - ((i + 1 : Nat) : Int)).toNat + 1 := by omega
-    rw [this, List.take_succ_cons]
+theorem inC_unfold (min max : F64) (c : Item) :
+    (F64.le min c.1 && F64.le c.1 max) = inC min max c := rfl
 
-theorem takeLim_stop (limit : Int) (i : Nat) (l : List Item)
-    (h : ¬ ((i : Int) < limit ∨ limit < 0)) : takeLim limit i l = [] := by
-  unfold takeLim
-  have hl : ¬ limit < 0 := fun h' => h (Or.inr h')
-  have : (limit - (i : Int)).toNat = 0 := by omega
-  simp [hl, this]
-
-theorem acc_step' (min max : F64) (mode : Nat) (c : Item) (acc L : List Item) :
-    (if ((mode % 2 = 1 ∧ F64.eq c.1 min = true) ∨ (mode / 2 % 2 = 1 ∧ F64.eq c.1 max = true))
-      then acc else c :: acc).reverse ++ List.filter (keepB min max mode) L
-      = acc.reverse ++ List.filter (keepB min max mode) (c :: L) := by
-  by_cases h : ((mode % 2 = 1 ∧ F64.eq c.1 min = true) ∨ (mode / 2 % 2 = 1 ∧ F64.eq c.1 max = true))
-  · have hk : keepB min max mode c = false := by simp only [keepB, h, decide_true, Bool.not_true]
-    rw [if_pos h, List.filter_cons, hk]
-    simp
-  · have hk : keepB min max mode c = true := by simp only [keepB, h, decide_false, Bool.not_false]
-    rw [if_neg h, List.filter_cons, hk]
-    simp
-
+/-- the loop in closed form: take the leading items inside the closed interval, drop the excluded
+    bounds, then drop `offset`, then keep `limit` -/
 theorem loopS_closed (min max : F64) (mode : Nat) (limit : Int) :
-    ∀ (rest : List Item) (c : Item) (i fuel : Nat) (acc : List Item), rest.length < fuel →
-      loopS min max mode limit (c :: rest) i fuel acc
-        = acc.reverse ++
-          (takeLim limit i (c :: rest.takeWhile (inC min max))).filter (keepB min max mode) := by
-  intro rest
-  induction rest with
+    ∀ (S : List Item) (offset : Int) (fuel : Nat) (acc : List Item), S.length < fuel →
+      (limit > 0 → (acc.length : Int) < limit) →
+      loopS min max mode limit S offset fuel acc
+        = acc.reverse ++ lim limit acc.length
+            (((S.takeWhile (inC min max)).filter (keepB min max mode)).drop offset.toNat) := by
+  intro S
+  induction S with
   | nil =>
-    intro c i fuel acc hf
+    intro offset fuel acc _ _
+    simp [loopS, lim]
+  | cons c rest ih =>
+    intro offset fuel acc hf hacc
     obtain ⟨f, rfl⟩ : ∃ f, fuel = f + 1 := ⟨fuel - 1, by omega⟩
-    simp only [loopS]
-    by_cases hlim : ((i : Int) < limit ∨ limit < 0)
-    · simp only [hlim, decide_true, Bool.not_true, Bool.false_eq_true, if_false, List.takeWhile_nil]
-      rw [takeLim_cons limit i c [] hlim]
-      have : takeLim limit (i + 1) [] = [] := by unfold takeLim; split <;> simp
-      rw [this]
-      have := acc_step' min max mode c acc []
-      simpa using this
-    · simp only [hlim, decide_false, Bool.not_false, if_true]
-      rw [takeLim_stop limit i _ hlim]
-      simp
-  | cons c' r ih =>
-    intro c i fuel acc hf
-    obtain ⟨f, rfl⟩ : ∃ f, fuel = f + 1 := ⟨fuel - 1, by omega⟩
-    simp only [loopS]
-    by_cases hlim : ((i : Int) < limit ∨ limit < 0)
-    · simp only [hlim, decide_true, Bool.not_true, Bool.false_eq_true, if_false]
-      by_cases hin : inC min max c' = true
-      · have hcont : ¬ ((!(F64.le min c'.1)) = true ∨ (!(F64.ge max c'.1)) = true) := by
-          simp only [inC, Bool.and_eq_true] at hin
-          simp [hin.1, hin.2]
-        rw [if_neg hcont]
-        rw [ih c' (i + 1) f _ (by simp only [List.length_cons] at hf; omega)]
-        rw [List.takeWhile_cons, if_pos hin, takeLim_cons limit i c _ hlim]
-        exact acc_step' min max mode c acc _
-      · have hcont : ((!(F64.le min c'.1)) = true ∨ (!(F64.ge max c'.1)) = true) := by
-          simp only [inC, Bool.and_eq_true] at hin
-          by_cases h1 : F64.le min c'.1 = true
-          · right
-            have : ¬ F64.ge max c'.1 = true := fun h2 => hin ⟨h1, h2⟩
-            simpa using this
-          · left; simpa using h1
-        rw [if_pos hcont]
-        rw [List.takeWhile_cons, if_neg hin, takeLim_cons limit i c [] hlim]
-        have : takeLim limit (i + 1) [] = [] := by unfold takeLim; split <;> simp
-        rw [this]
-        have := acc_step' min max mode c acc []
-        simpa using this
-    · simp only [hlim, decide_false, Bool.not_false, if_true]
-      rw [takeLim_stop limit i _ hlim]
-      simp
-
-/-- a stream that starts inside the closed interval and leaves it once: `R` inside, `B` outside -/
-theorem stream_closed (min max : F64) (mode : Nat) (limit : Int) (R B : List Item)
-    (hR : ∀ a ∈ R, inC min max a = true) (hB : ∀ b ∈ B, inC min max b = false)
-    (off fuel : Nat) (hf : (R ++ B).length < fuel) :
-    loopS min max mode limit ((R ++ B).drop off) 0 fuel [] =
-      if off < R.length then (takeLim limit 0 (R.drop off)).filter (keepB min max mode)
-      else (takeLim limit 0 ((B.drop (off - R.length)).take 1)).filter (keepB min max mode) := by
-  have tw_all : ∀ (l : List Item), (∀ a ∈ l, inC min max a = true) →
-      (l ++ B).takeWhile (inC min max) = l := by
-    intro l
-    induction l with
-    | nil =>
-      intro _
-      cases B with
-      | nil => rfl
-      | cons b B => simp [hB b (by simp)]
-    | cons a l ih =>
-      intro h
-      simp only [List.cons_append, List.takeWhile_cons, h a (by simp), if_true]
-      rw [ih (fun x hx => h x (by simp [hx]))]
-  by_cases hoff : off < R.length
-  · rw [if_pos hoff, List.drop_append_of_le_length (by omega)]
-    cases hd : R.drop off with
-    | nil =>
-      have := List.drop_eq_nil_iff.mp hd
-      omega
-    | cons c rest =>
-      have hsub : ∀ a ∈ c :: rest, inC min max a = true := by
-        intro a ha
-        rw [← hd] at ha
-        exact hR a (List.mem_of_mem_drop ha)
-      rw [List.cons_append, loopS_closed]
-      · rw [tw_all rest (fun a ha => hsub a (by simp [ha]))]
+    have hf' : rest.length < f := by simp only [List.length_cons] at hf; omega
+    simp only [loopS, inC_unfold]
+    by_cases hin : inC min max c = true
+    · simp only [hin, Bool.not_true, Bool.false_eq_true, if_false, List.takeWhile_cons, if_true]
+      by_cases hex : (mode % 2 = 1 ∧ F64.eq c.1 min = true) ∨ (mode / 2 % 2 = 1 ∧ F64.eq c.1 max = true)
+      · have hk : keepB min max mode c = false := by simp only [keepB, hex, decide_true, Bool.not_true]
+        rw [if_pos hex, ih offset f acc hf' hacc, List.filter_cons, hk]
         simp
-      · have h1 : (c :: rest).length ≤ R.length := by rw [← hd]; simp
-        simp only [List.length_append, List.length_cons] at hf h1 ⊢
-        omega
-  · rw [if_neg hoff]
-    have hge : R.length ≤ off := by omega
-    rw [List.drop_append, List.drop_eq_nil_iff.mpr hge, List.nil_append]
-    cases hd : B.drop (off - R.length) with
-    | nil =>
-      simp only [loopS, List.take_nil]
-      unfold takeLim
-      split <;> simp
-    | cons b rest =>
-      rw [loopS_closed]
-      · have hrest : rest.takeWhile (inC min max) = [] := by
-          cases rest with
-          | nil => rfl
-          | cons b' rest =>
-            have : b' ∈ B := List.mem_of_mem_drop (by rw [hd]; simp)
-            simp [hB b' this]
-        rw [hrest]
-        simp
-      · have h1 : (b :: rest).length ≤ B.length := by rw [← hd]; simp
-        simp only [List.length_append, List.length_cons] at hf h1 ⊢
-        omega
+      · have hk : keepB min max mode c = true := by simp only [keepB, hex, decide_false, Bool.not_false]
+        rw [if_neg hex, List.filter_cons, hk, if_pos rfl]
+        by_cases hoff : offset > 0
+        · rw [if_pos hoff, ih (offset - 1) f acc hf' hacc]
+          have : offset.toNat = (offset - 1).toNat + 1 := by omega
+          rw [this, List.drop_succ_cons]
+        · rw [if_neg hoff]
+          have h0 : offset.toNat = 0 := by omega
+          rw [h0, List.drop_zero]
+          by_cases hstop : limit > 0 ∧ (((c :: acc).length : Nat) : Int) = limit
+          · rw [if_pos hstop]
+            have h1 : limit.toNat - acc.length = 1 := by
+              have := hstop.2
+              simp only [List.length_cons] at this
+              omega
+            simp [lim, hstop.1, h1]
+          · rw [if_neg hstop, ih offset f (c :: acc) hf' (by
+              intro hl
+              have := hacc hl
+              simp only [List.length_cons] at hstop ⊢
+              omega)]
+            rw [h0, List.drop_zero]
+            unfold lim
+            by_cases hl : limit > 0
+            · have := hacc hl
+              have h2 : limit.toNat - acc.length = (limit.toNat - (c :: acc).length) + 1 := by
+                simp only [List.length_cons] at hstop ⊢
+                omega
+              simp only [hl, if_true, h2, List.take_succ_cons, List.reverse_cons, List.append_assoc,
+                List.singleton_append]
+            · simp only [hl, if_false, List.reverse_cons, List.append_assoc, List.singleton_append]
+    · have hin' : inC min max c = false := by simpa using hin
+      simp [hin', lim]
 
+/-- a stream that starts inside the closed interval and leaves it once: `R` inside, then `B`
+    whose items are all outside -/
+theorem takeWhile_inC_stream (min max : F64) (R B : List Item)
+    (hR : ∀ a ∈ R, inC min max a = true) (hB : ∀ b ∈ B, inC min max b = false) :
+    (R ++ B).takeWhile (inC min max) = R := by
+  induction R with
+  | nil =>
+    cases B with
+    | nil => rfl
+    | cons b B => simp [hB b (by simp)]
+  | cons a R ih =>
+    simp only [List.cons_append, List.takeWhile_cons, hR a (by simp), if_true]
+    rw [ih (fun x hx => hR x (by simp [hx]))]
 
 /-! ### IEEE comparisons on non-NaN values -/
 
